@@ -59,7 +59,7 @@ def _canon(e, keep_sites, _d):
             return "true" if v else "false"
         if isinstance(v, int):
             return str(v)
-        return repr(v)
+        return mem_str(v)
     if k == "cn":
         v = const_val(e)
         nm = last2(e[1])
@@ -113,6 +113,32 @@ def _canon(e, keep_sites, _d):
     if k == "apply":
         return "apply(%s)" % ",".join(canon(a, keep_sites) for a in e[1:])
     return "%s(…)" % k
+
+
+def mem_str(v):
+    """decoded constant memory (frozen by pathwalk._freeze) -> short stable text"""
+    if isinstance(v, tuple) and v and all(isinstance(x, tuple) and len(x) == 2 and isinstance(x[0], str) for x in v):
+        d = dict(v)
+        if "adt" in d and "fields" in d:
+            return "%s{%s}" % (str(d["adt"]).split("::")[-1], ",".join(mem_str(x) for x in d["fields"]))
+    if isinstance(v, tuple):
+        return "(%s)" % ",".join(mem_str(x) for x in v)
+    if isinstance(v, bytes):
+        try:
+            return repr(v.decode())
+        except Exception:
+            return repr(v)
+    return repr(v)
+
+
+def mem_fields(e):
+    """(adt short name, [field values]) of a constant struct expression, or None"""
+    v = const_val(e)
+    if isinstance(v, tuple) and v and all(isinstance(x, tuple) and len(x) == 2 and isinstance(x[0], str) for x in v):
+        d = dict(v)
+        if "adt" in d and "fields" in d:
+            return str(d["adt"]).split("::")[-1], list(d["fields"])
+    return None
 
 
 def chain_of(subj):
@@ -294,3 +320,52 @@ def match_table(ctx, rid, fn, paths, rows, what, ignore_panics=True, extra_ok=No
         else:
             ctx.ok(rid, "%s|row|%s" % (what, name))
     return ok
+
+
+def construction_sites(prog, adt, crates=("wtransport_proto", "wtransport")):
+    """yield (fn, path, ops, atoms_before) for every aggregate construction of `adt`"""
+    for fn in prog.fn_list:
+        body = fn.body
+        if not body:
+            continue
+        hit = False
+        for bb in body["blocks"]:
+            for st in bb["s"]:
+                if st["k"] == "assign" and st["rv"]["k"] == "agg" and st["rv"].get("adt") == adt:
+                    hit = True
+        if not hit:
+            continue
+        try:
+            paths = walk(fn)
+        except TooManyPaths:
+            yield fn, None, None, None
+            continue
+        for p in paths:
+            for e in p.events:
+                if e[0] == "agg" and e[1] == adt:
+                    yield fn, p, e[3], p.atoms[:e[5]]
+
+
+def call_sites(prog, callee_regex):
+    """yield (fn, path, event, atoms_before) for every call whose resolved name matches"""
+    rx = re.compile(callee_regex)
+    for fn in prog.fn_list:
+        body = fn.body
+        if not body:
+            continue
+        hit = False
+        for bb in body["blocks"]:
+            t = bb["t"]
+            if t["k"] == "call" and rx.search(callee_name(t["f"])):
+                hit = True
+        if not hit:
+            continue
+        try:
+            paths = walk(fn)
+        except TooManyPaths:
+            yield fn, None, None, None
+            continue
+        for p in paths:
+            for e in p.events:
+                if e[0] == "call" and rx.search(e[1]):
+                    yield fn, p, e, p.atoms[:e[6]]
